@@ -500,7 +500,9 @@ def check_call_block(res, case, z, Xof, shift_arg, svals, ss, sub, crop_pair, to
     if (out.start_time is None) or T(out.start_time) != T(z.start_time):
         res.violation(f"{site}|start_time", f"start_time changed without crop [{sub}]", case, sub)
     y = np.asarray(out.data)
-    tol = 16 * EPS32 * tol_scale
+    # (double-precision data is delayed in double precision: 4096 eps64 leaves room for the FFT's own rounding)
+    tol = (16 * EPS32 if np.dtype(case["dtype"]).itemsize in (4, 8) and np.dtype(case["dtype"]).name in ("float32", "complex64")
+           else 4096 * float(np.finfo(np.float64).eps)) * tol_scale
     for idx in (np.ndindex(*ss) if ss else [()]):
         s = svals[idx] if ss else svals[()]
         col = y[(slice(None),) + idx]
@@ -576,7 +578,7 @@ def main(argv=None):
                        "mixed-sign crop", "time Quantity shift", "Quantity unit not reciprocal to the rate unit", "negative zero in a shift array", "argument forms", "long signal, large shift", "long signal, Quantity shift slightly off a whole sample", "long signal, float32 shift", "whole-sample Quantity shift with the count fixed by exact arithmetic", "too many dims rejected",
                        "complex even-N fractional (two Nyquist conventions accepted)",
                        "all-zero shift (identity fast path)", "complex signal with every imaginary part zero"],
-        assumptions=["phase ramp is single precision by design: value budget 16*eps32*max|x| (a more accurate implementation passes)",
+        assumptions=["value budget 16*eps32*max|x| for single-precision data, 4096*eps64*max|x| for double-precision data",
                      "non-zero |s| < 1e-8 is outside the alphabet (library treats it as identity)",
                      "Nyquist-bin phase convention for complex even-N fractional shifts is left open (both accepted)"],
         argv=argv)
